@@ -184,6 +184,49 @@ theorem accept_is_local (c : Client) (op : Op) (s' : Str) (hne : target op ≠ s
       simp [lookup_put, this]
 
 
+/-- the keys of the shared nonce / sub map an operation may (re)bind -/
+def mapKeys : Op → List Str
+  | .begin _ n => [n]
+  | .token _ r => match r.idt with | some t => [t.sub] | none => []
+  | _ => []
+
+/-- **bindings are local too**: an operation changes the nonce / sub map at most at the nonce it
+    issues (begin) or at the subject of the ID token it accepts (token response) — and that key then
+    points to the operation's own state -/
+theorem map_is_local (c : Client) (op : Op) (k : Str) (hk : k ∉ mapKeys op) :
+    lookup (step c op).1.map k = lookup c.map k := by
+  unfold step
+  cases ht : tryStep c op with
+  | none => rfl
+  | some c' =>
+    simp only
+    cases op with
+    | begin s n =>
+      simp only [tryStep, Option.some.injEq] at ht
+      subst ht
+      have : k ≠ n := fun e => hk (by simp [mapKeys, e])
+      simp [lookup_put, this]
+    | authz r =>
+      obtain ⟨_, _, s, rec, _, _, _, _, hc⟩ := authz_accept c c' r ht
+      subst hc; rfl
+    | token s r =>
+      cases hi : r.idt with
+      | none =>
+        simp only [tryStep, bind, Option.bind_eq_some_iff, hi] at ht
+        obtain ⟨rec, _, hc⟩ := ht
+        simp only [Option.some.injEq] at hc
+        subst hc; rfl
+      | some t =>
+        obtain ⟨rec, n, _, _, _, _, hc⟩ := token_accept c c' s r t hi ht
+        subst hc
+        have : k ≠ t.sub := fun e => hk (by simp [mapKeys, hi, e])
+        simp [lookup_put, this]
+    | userinfo s sub =>
+      simp only [tryStep, bind, Option.bind_eq_some_iff] at ht
+      obtain ⟨rec, _, _, _, hc⟩ := ht
+      simp only [Option.some.injEq] at hc
+      subst hc; rfl
+
 /-! ### over whole histories -/
 
 /-- whatever ID token is recorded under a state carries the nonce that was sent for that state -/
